@@ -12,9 +12,7 @@ from .engine import (Interp, Ctx, Agg, Cell, Ref, Str, Opaque, explore, run_sing
 from . import wrap
 
 
-class ArgVal:
-    def __init__(s, name, ty): s.name = name; s.ty = ty
-    def __repr__(s): return f"<{s.name}: {s.ty}>"
+from .engine import ArgVal
 
 
 def decode_template(esc):
@@ -187,12 +185,13 @@ def run(P, item):
 
 
 # ------------------------------------------------------------------ native replay
-def parse_render(ty, s):
+def parse_render(ty, s, kind='debug'):
     """inverse of the Debug rendering for the replayable types -> token understood by the native dispatcher"""
     ty = re.sub(r"^&('\w+ )?", '', ty.strip())
     if ty in ('u8', 'u16', 'u32', 'u64', 'usize', 'i8', 'i16', 'i32', 'i64', 'isize'): return s
     if ty == 'bool': return s
     if ty in ('String', 'str', 'std::string::String'):
+        if kind == 'display': return 's:' + ''.join('%%%02x' % b for b in s.encode('utf-8'))
         body = s[1:-1]
         out = ''; i = 0
         while i < len(body):
@@ -211,8 +210,9 @@ def replay(f, w):
     if not w.get('collide'): return True, 'structural fact read from the compiler MIR of the real build: ' + json.dumps(w.get('structure')), []
     subs = wrap.subjects(); rec = subs[w['subject']]
     try:
-        a = [parse_render(t, s) for t, s in zip([x[1] for x in rec['args']], w['collide'][0][-len(rec['args']):])]
-        b = [parse_render(t, s) for t, s in zip([x[1] for x in rec['args']], w['collide'][1][-len(rec['args']):])]
+        kinds = w.get('kinds', ['debug'] * 9)[-len(rec['args']):]
+        a = [parse_render(t, s, k) for t, s, k in zip([x[1] for x in rec['args']], w['collide'][0][-len(rec['args']):], kinds)]
+        b = [parse_render(t, s, k) for t, s, k in zip([x[1] for x in rec['args']], w['collide'][1][-len(rec['args']):], kinds)]
     except (Unsupported, Exception) as e:
         return False, 'witness cannot be turned into native arguments: ' + str(e), []
     L = ['scenario subj', f"callk 0 {w['subject']} " + ' '.join(a), f"callk 0 {w['subject']} " + ' '.join(b), 'end']
